@@ -2,7 +2,7 @@ import NautilusVerif.Model.CrashFS
 open NautilusVerif CrashFS
 namespace CrashDriver
 
-/-- ops: `o<fd>,<path>,<w><t><c>`  `m<fd>`  `c<fd>`  `u<path>`  `r<src>,<dst>`  `k` -/
+/-- ops: `o<fd>,<path>,<w><t><c>`  `m<fd>`  `c<fd>`  `u<path>`  `r<src>,<dst>`  `l<src>,<dst>`  `k` -/
 def parseOp (s : String) : Option Sys :=
   let body := (s.drop 1).toString
   match s.front with
@@ -16,6 +16,9 @@ def parseOp (s : String) : Option Sys :=
   | 'u' => body.toNat?.map .unlink
   | 'r' => match body.splitOn "," with
     | [a, b] => do some (.rename (← a.toNat?) (← b.toNat?))
+    | _ => none
+  | 'l' => match body.splitOn "," with
+    | [a, b] => do some (.link (← a.toNat?) (← b.toNat?))
     | _ => none
   | 'k' => some .mark
   | _ => none
